@@ -75,6 +75,13 @@ CLAIMED = {
         "mpmath gammainc at 30 digits; relative tolerance 1e-11; VERIF_SEED perturbs exponents and radii inside their lattice cells.",
         "DESIGN.md 3/C17",
     ),
+    "C08": (
+        "exploration",
+        "complete product structured angle lattice (8 azimuths x 6 principal + 3 non-principal polar angles incl. both poles and a near-pole angle) x every (l,m) <= l_max for both implementations and both angular derivatives, against a multiprecision definition oracle (exact Legendre coefficients, mp.diff), a float64 recursion oracle at l_max up to 200, the addition theorem on all ordered direction pairs, Cartesian closed forms and coordinate round trips",
+        "Every (l,m) parity/sign/ordering combination up to l=12 (thorough 24) is compared at angles chosen from the branch structure (poles, equator, negative and >2pi azimuths), and all rows up to l=200 against an independent recursion, so a slip affecting one parity, one order or high degree only is decided, not sampled.",
+        "Definition enforced on polar angle in [0,pi] (all azimuths); outside only agreement of the two implementations and derivative-consistency are required; at the poles only finiteness of the polar derivative (documented convention).",
+        "DESIGN.md 3/C08",
+    ),
 }
 
 NOT_YET = "check not built yet in this session (work in progress; see DESIGN.md section 8 for the order of work)"
